@@ -126,6 +126,7 @@ def floatFn (f : String) (xs : List Float) : Option Float :=
   | "pow", [x, y] => some (x.pow y) | "sqrt", [x] => some x.sqrt | "cbrt", [x] => some x.cbrt
   | "ceil", [x] => some x.ceil | "floor", [x] => some x.floor | "round", [x] => some x.round
   | "fabs", [x] => some x.abs | "abs", [x] => some x.abs
+  | "vpf", [x, y] => some (x + y)        -- the user function declared by the synthetic metadata (tools/qgen.py USERFN)
   | _, _ => none
 
 def floatNum : Num Float where
